@@ -60,7 +60,7 @@ Definition sig_table_eqb (a b : sig_table) : bool :=
   && Bool.eqb (choice_cond a) (choice_cond b) && kinds_eqb (choice_kinds a) (choice_kinds b)
   && Bool.eqb (choice_compat a) (choice_compat b)
   && Bool.eqb (compat_enum_by_name a) (compat_enum_by_name b)
-  && forallb (fun p => optb kind_eqb (lookup_pos (pos_req a) p) (lookup_pos (pos_req b) p)) all_positions
+  && forallb (fun p => optb kinds_eqb (lookup_pos (pos_req a) p) (lookup_pos (pos_req b) p)) all_positions
   && kinds_eqb (param_decl_kinds a) (param_decl_kinds b)
   && Bool.eqb (pass_arity a) (pass_arity b) && Bool.eqb (pass_kind a) (pass_kind b)
   && Bool.eqb (pass_enum_by_name a) (pass_enum_by_name b)
